@@ -68,6 +68,7 @@ struct Scen {
     std::vector<int> locks;   // height_first of prune locks
     int snap{-1};             // base height of an unvalidated snapshot chainstate, -1 none
     int depth{0};             // reorg depth
+    bool real_files{true};    // false: the block directory is re-pointed at an empty directory (decisions and flags only)
     std::string str() const
     {
         std::string s = mode == 0 ? "auto target=" + std::to_string(target_mib) + "MiB usage=" + std::to_string(usage) + " headers_ahead=" + std::to_string(ahead)
@@ -112,13 +113,9 @@ void PrivateBlocksDir(ck::Node& n, bool will_write)
 {
     auto& bm = n.chainman().m_blockman;
     const fs::path old = bm.m_block_file_seq.m_dir;
-    auto cpu_ms = [] { timespec ts; clock_gettime(CLOCK_PROCESS_CPUTIME_ID, &ts); return ts.tv_sec * 1e3 + ts.tv_nsec / 1e6; };
-    double c0 = cpu_ms();
     const fs::path dir = g_scratch / fs::u8path("job" + std::to_string(getpid()));
     fs::create_directories(dir);
-    if (getenv("VX_C19_TIME")) fprintf(stderr, "[p] mkdir %.2f\n", cpu_ms() - c0);
     for (const auto& e : fs::directory_iterator(old)) {
-        if (getenv("VX_C19_TIME")) fprintf(stderr, "[p] iter %.2f %s\n", cpu_ms() - c0, fs::PathToString(e.path().filename()).c_str());
         if (!e.is_regular_file()) continue;
         const fs::path to = dir / fs::PathFromString(fs::PathToString(e.path().filename()));
         if (will_write || link(fs::PathToString(e.path()).c_str(), fs::PathToString(to).c_str()) != 0) fs::copy_file(e.path(), to, fs::copy_options::overwrite_existing);
@@ -153,7 +150,14 @@ void RunScenario(ck::Node& n, const Layout& L, const Scen& s, fp::Out& o)
     long f0 = faults();
     auto lap = [&](const char* what) { if (timing) { long f1 = faults(); fprintf(stderr, "[f] %s %ld\n", what, f1 - f0); f0 = f1; }
                                        if (timing) { auto t1 = std::chrono::steady_clock::now(); double c1 = cpu_ms(); fprintf(stderr, "[t] %s %.1f %.1f\n", what, std::chrono::duration<double, std::milli>(t1 - t0).count(), c1 - c0); t0 = t1; c0 = c1; } };
-    PrivateBlocksDir(n, /*will_write=*/s.mode == 2);
+    const bool files = s.real_files || s.mode == 2;
+    if (files) PrivateBlocksDir(n, /*will_write=*/s.mode == 2);
+    else {
+        // forking is expensive on a loaded machine and the directory work is the larger part of it: most scenarios
+        // only judge the pruning decision and the index flags, against an empty directory
+        const_cast<fs::path&>(bm.m_block_file_seq.m_dir) = g_scratch / fs::u8path("empty");
+        const_cast<fs::path&>(bm.m_undo_file_seq.m_dir) = g_scratch / fs::u8path("empty");
+    }
     lap("privdir");
     std::vector<int> ref_locks = s.locks; // reference lock positions (moved back by a reorg)
     {
@@ -258,9 +262,19 @@ void RunScenario(ck::Node& n, const Layout& L, const Scen& s, fp::Out& o)
         usage_after -= fsize[f];
         for (const BlockRec* b : by_file[f]) {
             std::string why;
-            if (needed(b->height, &why)) V("needed-block-pruned file=" + std::to_string(f), "file " + std::to_string(f) + " was removed but " + why);
+            if (!needed(b->height, &why)) continue;
+            // One family gets a stable key (so that it can be listed as a known finding): a lock so low that
+            // height_first - 10 - 1 < 1 does not protect heights <= 1 (FlushStateToDisk clamps the limit up to 1).
+            bool floor_case = b->height <= 1 && b->height <= tip - KEEP && !(s.snap >= 0) && !(s.mode != 0 && b->height > manual);
+            if (floor_case) {
+                bool low_lock = false;
+                for (int l : ref_locks) if (l != INT_MAX && b->height >= l && l - LOCK_BUFFER - 1 < 1) low_lock = true;
+                floor_case = low_lock;
+            }
+            if (floor_case) o.violation("C19-prune-lock-floor", "file " + std::to_string(f) + " was removed but " + why + " [" + tag + "]", "scenario: " + tag);
+            else V("needed-block-pruned file=" + std::to_string(f), "file " + std::to_string(f) + " was removed but " + why);
         }
-        if (FileExists(n, "blk", f) || FileExists(n, "rev", f)) V("pruned-file-on-disk file=" + std::to_string(f), "blk/rev file still exists after pruning");
+        if (files && (FileExists(n, "blk", f) || FileExists(n, "rev", f))) V("pruned-file-on-disk file=" + std::to_string(f), "blk/rev file still exists after pruning");
     }
     // flags and readability
     {
@@ -271,7 +285,7 @@ void RunScenario(ck::Node& n, const Layout& L, const Scen& s, fp::Out& o)
             const bool have = bi->nStatus & BLOCK_HAVE_DATA, undo = bi->nStatus & BLOCK_HAVE_UNDO;
             if (gone && (have || undo)) V("flags-not-cleared height=" + std::to_string(b.height), "block of a removed file still has HAVE_DATA/HAVE_UNDO");
             if (!gone && (!have || undo != b.undo)) V("flags-cleared-for-kept-block height=" + std::to_string(b.height), "block of a kept file lost HAVE_DATA/HAVE_UNDO");
-            if (!gone) {
+            if (!gone && files) {
                 CBlock rd;
                 LOCK(cs_main);
                 if (!bm.ReadBlock(rd, *bi) || rd.GetHash() != b.hash) V("kept-block-unreadable height=" + std::to_string(b.height), "ReadBlock fails for a block whose file was not pruned");
@@ -282,7 +296,7 @@ void RunScenario(ck::Node& n, const Layout& L, const Scen& s, fp::Out& o)
     }
     lap("flags+read");
     for (auto& [f, sz] : fsize)
-        if (sz && !removed.count(f) && !FileExists(n, "blk", f)) V("kept-file-missing file=" + std::to_string(f), "block file disappeared although it was not pruned");
+        if (files && sz && !removed.count(f) && !FileExists(n, "blk", f)) V("kept-file-missing file=" + std::to_string(f), "block file disappeared although it was not pruned");
     // ---- liveness / frugality of the automatic pass
     auto surely_prunable = [&](int f) {
         bool by_keep = true, by_lock = true, by_snap = true;
@@ -318,51 +332,66 @@ void RunScenario(ck::Node& n, const Layout& L, const Scen& s, fp::Out& o)
     o.count("files_removed", removed.size());
     if (!removed.empty() || lock_binding || snap_binding) o.distinct("nontrivial", tag);
     if (vx::fnv1a(tag) % 997 == 0) o.sample(tag + " -> removed " + std::to_string(removed.size()) + " of " + std::to_string(by_file.size()) + " files");
-    RemovePrivateDir(n);
+    if (files) RemovePrivateDir(n);
     lap("rest");
-}
-
-std::vector<std::vector<int>> LockSets(int tip, bool big)
-{
-    std::vector<int> a = {0, 1, 12, 50, tip - 300, tip - 289, tip - 288, tip - 277, tip, INT_MAX};
-    std::vector<int> v;
-    for (int x : a) if (x >= 0 && std::find(v.begin(), v.end(), x) == v.end()) v.push_back(x);
-    std::vector<std::vector<int>> out{{}};
-    for (int x : v) out.push_back({x});
-    for (size_t i = 0; i < v.size(); i++)
-        for (size_t j = i + 1; j < v.size(); j++)
-            if (big || (v[i] == 50 && (v[j] == INT_MAX || v[j] == tip - 288 || v[j] == tip))) out.push_back({v[i], v[j]});
-    return out;
 }
 
 std::vector<Scen> Scenarios(int tip, bool big)
 {
     std::vector<Scen> v;
-    std::vector<int> snaps = {-1, 110};
-    if (tip >= 299) snaps.push_back(299);
-    const auto locksets = LockSets(tip, big);
-    const std::vector<int> targets = big ? std::vector<int>{550, 600, 700} : std::vector<int>{550, 700};
-    for (int t : targets)
+    auto add = [&](Scen s) { v.push_back(std::move(s)); };
+    auto mk_auto = [](int t, int u, int ahead, int snap, std::vector<int> locks) { Scen s; s.mode = 0; s.target_mib = t; s.usage = u; s.ahead = ahead; s.snap = snap; s.locks = std::move(locks); return s; };
+    auto mk_manual = [](int m, int snap, std::vector<int> locks) { Scen s; s.mode = 1; s.manual = m; s.snap = snap; s.locks = std::move(locks); return s; };
+    std::vector<int> single_raw = {0, 1, 12, 50, tip - 300, tip - 289, tip - 288, tip - 277, tip, INT_MAX};
+    std::vector<int> single;
+    for (int x : single_raw) if (x >= 0 && std::find(single.begin(), single.end(), x) == single.end()) single.push_back(x);
+    const int snap_hi = tip >= 299 ? 299 : 110;
+    if (!big) {
+        const std::vector<std::vector<int>> locks = {{}, {12}, {std::max(0, tip - 300)}, {tip - 277}, {50, tip}};
+        for (int u : {0, 3, 5})
+            for (const auto& l : locks)
+                for (int snap : {-1, snap_hi}) add(mk_auto(550, u, 0, snap, l));
+        add(mk_auto(550, 2, 0, -1, {}));
+        add(mk_auto(550, 3, 3, -1, {}));
+        add(mk_auto(700, 4, 0, -1, {tip - 289}));
+        for (int m : {1, tip - 288, tip})
+            for (const auto& l : std::vector<std::vector<int>>{{}, {1}, {std::max(0, tip - 300)}})
+                for (int snap : {-1, 110}) add(mk_manual(m, snap, l));
+        add(mk_manual(tip - 287, -1, {}));
+        add(mk_manual(2, -1, {0}));
+    } else {
+        std::vector<std::vector<int>> locks{{}};
+        for (int x : single) locks.push_back({x});
+        for (int x : single) if (x != 50 && x != INT_MAX) locks.push_back({50, x});
+        locks.push_back({tip - 300, INT_MAX});
         for (int u = 0; u < 6; u++)
-            for (int ahead : {0, 3}) {
-                if (!big && ahead && u != 3) continue;
-                if (!big && t == 700 && (u == 1 || u == 2)) continue;
-                for (int snap : snaps)
-                    for (const auto& ls : locksets) { Scen s; s.mode = 0; s.target_mib = t; s.usage = u; s.ahead = ahead; s.snap = snap; s.locks = ls; v.push_back(s); }
-            }
-    std::set<int> manual = {1, 2, 50, tip / 2, tip - 289, tip - 288, tip - 287, tip, tip + 10};
-    for (int m : manual) {
-        if (m < 1) continue;
-        for (int snap : snaps)
-            for (const auto& ls : locksets) { Scen s; s.mode = 1; s.manual = m; s.snap = snap; s.locks = ls; v.push_back(s); }
+            for (const auto& l : locks) add(mk_auto(550, u, 0, -1, l));
+        for (int snap : {110, snap_hi})
+            for (int u = 0; u < 6; u++)
+                for (const auto& l : std::vector<std::vector<int>>{{}, {std::max(0, tip - 300)}, {50}}) add(mk_auto(550, u, 0, snap, l));
+        for (int u : {2, 3}) add(mk_auto(550, u, 3, -1, {}));
+        for (int t : {600, 700})
+            for (int u : {1, 2, 3, 5})
+                for (const auto& l : std::vector<std::vector<int>>{{}, {std::max(0, tip - 300)}}) add(mk_auto(t, u, 0, -1, l));
+        std::set<int> manual = {1, 2, 50, tip / 2, tip - 289, tip - 288, tip - 287, tip, tip + 10};
+        for (int m : manual) {
+            if (m < 1) continue;
+            add(mk_manual(m, -1, {}));
+            for (int x : single) add(mk_manual(m, -1, {x}));
+        }
+        for (int snap : {110, snap_hi})
+            for (int m : {1, 150, 300, tip - 288, tip})
+                for (const auto& l : std::vector<std::vector<int>>{{}, {50}}) if (m >= 1) add(mk_manual(m, snap, l));
     }
     for (int d : {1, 2, 3, 15})
         for (int l : {tip, tip - 1, tip - 2, tip - 3, tip - 14, tip - 15, tip - 16, 50, INT_MAX}) {
-            if (!big && d == 2) continue;
+            if (!big && !((d == 3 || d == 15) && (l == tip || l == tip - 14 || l == 50))) continue;
             Scen s; s.mode = 2; s.depth = d; s.locks = {l};
-            v.push_back(s);
-            if (l == tip) { Scen t2 = s; t2.locks = {tip, tip - 1}; v.push_back(t2); }
+            add(s);
+            if (big && l == tip) { Scen t2 = s; t2.locks = {tip, tip - 1}; add(t2); }
         }
+    // on-disk effects (file deletion, readability of what is kept) are observed in every 4th scenario
+    for (size_t i = 0; i < v.size(); i++) v[i].real_files = (i % 4 == 0);
     return v;
 }
 
@@ -373,6 +402,7 @@ int main(int argc, char** argv)
     vx::init(argc, argv, "C19", "exploration", 150, 1500);
     g_scratch = fs::PathFromString(vx::scratch_dir()) / fs::u8path("c19-" + std::to_string(getpid()));
     fs::create_directories(g_scratch);
+    fs::create_directories(g_scratch / fs::u8path("empty"));
     auto& E = vx::ev();
     const bool big = vx::thorough();
     if (!vx::ctx().replay.empty()) {
@@ -381,7 +411,7 @@ int main(int argc, char** argv)
         while (std::getline(f, line)) if (line.rfind("scenario: ", 0) == 0) printf("replay: scenario '%s' (re-run the tier; scenarios are enumerated deterministically)\n", line.substr(10).c_str());
     }
     const std::vector<Layout> layouts = {{"small", false}, {"large", false}, {"shuffled", true}};
-    const std::set<int> TIPS = big ? std::set<int>{288, 289, 300, 400, 600, 700} : std::set<int>{289, 400, 700};
+    const std::set<int> TIPS = big ? std::set<int>{288, 289, 300, 400, 600, 700} : std::set<int>{400, 700};
     const int MAXH = 700;
     std::map<std::string, uint64_t> counts;
     std::unordered_set<uint64_t> nontrivial;
@@ -418,6 +448,7 @@ int main(int argc, char** argv)
                 for (const auto& e : fs::directory_iterator(node.BlocksDir())) (void)e.is_regular_file();
                 (void)Snapshot(node);
             }
+            if (getenv("VX_C19_NOFORK")) { fp::Out out; out.fd = 2; RunScenario(node, L, sc[0], out); exit(0); }
             fp::Pool pool;
             pool.isolate_jobs = true;
             pool.workers = std::min<unsigned>(vx::ncpu(), 12);
@@ -482,10 +513,10 @@ int main(int argc, char** argv)
     for (auto& [k, v] : counts) E.set(k, v);
     E.set_str("layouts", layout_info);
     for (auto& s : samples) E.sample(s);
-    E.rule = std::string("3 block-file layouts (64 KiB files: ~40 small blocks per file / 1-3 large blocks per file / reversed delivery in groups of 6 with stale siblings) x tips ") + (big ? "{288,289,300,400,600,700}" : "{289,400,700}") +
-             " x { automatic pass: target " + (big ? "{550,600,700}" : "{550,700}") + " MiB x recorded usage {0.4T, T-20MiB, T-8MiB, T+1MiB, 1.3T, 3T} x headers ahead {0,3} | manual height {1,2,50,tip/2,tip-289,tip-288,tip-287,tip,tip+10} }"
-             " x prune-lock sets (none, singles and " + (big ? "all pairs" : "selected pairs") + " of {0,1,12,50,tip-300,tip-289,tip-288,tip-277,tip,INT_MAX}) x unvalidated-snapshot base {none,110,299}; plus reorgs of depth {1," + (big ? "2," : "") + "3,15} with locks around the fork point, 300 blocks of growth and a manual prune. "
-             "Every scenario runs in a fork of the node at that tip. distinct_nontrivial = distinct scenarios in which files were removed or a lock/snapshot base was the binding constraint";
+    E.rule = std::string("3 block-file layouts (64 KiB files: ~40 small blocks per file / 1-3 large blocks per file / reversed delivery in groups of 6 with stale siblings) x tips ") + (big ? "{288,289,300,400,600,700}" : "{400,700}") + " x scenarios: " +
+             (big ? "automatic pass at target 550 MiB x recorded usage {0.4T,T-20MiB,T-8MiB,T+1MiB,1.3T,3T} x prune-lock sets {none, each of 0,1,12,50,tip-300,tip-289,tip-288,tip-277,tip,INT_MAX, pairs with 50} (+ snapshot base {110,299} x 3 lock sets, headers 3 ahead, targets 600/700); manual height {1,2,50,tip/2,tip-289,tip-288,tip-287,tip,tip+10} x {no lock, each single lock} (+ snapshot bases); reorg depth {1,2,3,15} x lock {tip..tip-3,tip-14..tip-16,50,INT_MAX}"
+                  : "automatic pass at 550 MiB x usage {0.4T,T+1MiB,3T} x 5 lock sets x snapshot base {none,299} (+3 extra); manual height {1,tip-288,tip} x 3 lock sets x snapshot {none,110} (+2 extra); reorg depth {3,15} x lock {tip,tip-14,50}") +
+             ", each followed (reorg) by 300 blocks of growth and a manual prune. Every scenario runs in a fork of the node at that tip; every 4th one and all reorgs also check the files on disk. distinct_nontrivial = distinct scenarios in which files were removed or a lock/snapshot base was the binding constraint";
     E.assume("block-file sizes are scaled in metadata only (CBlockFileInfo nSize/nUndoSize) to reach usage levels around 550-700 MiB; the unvalidated snapshot chainstate is emulated by setting the chainstate's snapshot base hash and assumeutxo state (regtest's assumeutxo commitments belong to a different chain); the node is in initial block download (tip older than a day under mock time)");
     const char* miss = nullptr;
     if (!cut && vx::rep().violations == 0) {
